@@ -33,7 +33,7 @@ RULE = (
     "send_all_from_iterable via sendmsg, via SC_IOV_MAX<=0 fallback, via no-sendmsg fallback, StreamEndpoint.send_packet, and the "
     "asyncio adapter (send_all / send_all_from_iterable, <= 3 chunks quick, pipe capacities 1/3/64, peer draining or resetting at any loop iteration, then a second send on the same transport); the blocking TLS socket (SSLStreamTransport, TLS 1.2/1.3, client/server) "
     "sending one packet of 40000 / 100000 bytes (thorough also 300000) as one chunk or five chunks with empty ones over a real socketpair with the minimum send buffer, the peer "
-    "reading everything / 3000 bytes / nothing at every select() in which the library waits for writability (deviation bound 2 quick / 3 thorough), timeouts {inf, 1.0, 0} x retry {inf, 0.3}; "
+    "reading everything / 3000 bytes / nothing at every select() in which the library waits for writability (deviation bound 3 for 40000 bytes, 2 for the larger packets), timeouts {inf, 1.0, 0} x retry {inf, 0.3}; "
     "distinct_nontrivial = distinct (config, final observation) pairs of executions with at least one non-default answer"
 )
 ASSUMPTIONS = [
@@ -41,7 +41,7 @@ ASSUMPTIONS = [
     "a send() of zero bytes returns 0 (POSIX); an infinite timeout with a peer that never reads again is not enumerated (blocking forever is then legitimate)",
     "async TLS send paths are checked under C08 (transparent stream) with the TLS rig; the blocking TLS socket is driven here (props/c04_tls.py) over a real socketpair with the kernel-minimum send buffer",
 ]
-BOUNDS = {"quick": "<= 4 chunks of sizes {0,1,2,5}; TLS socket: deviation bound 2", "thorough": "<= 4 chunks of sizes {0,1,2,3,7} + 5 chunks of sizes {0,1,2}; TLS socket: deviation bound 3 (2 for 300000 bytes)"}
+BOUNDS = {"quick": "<= 4 chunks of sizes {0,1,2,5}; TLS socket: deviation bound 3 (40000 bytes) / 2 (100000)", "thorough": "<= 4 chunks of sizes {0,1,2,3,7} + 5 chunks of sizes {0,1,2}; TLS socket: deviation bound 3 (40000 bytes) / 2 (100000, 300000)"}
 
 CALL_HORIZON = 300
 
